@@ -388,7 +388,11 @@ def history_replay(spec):
 
 
 # ---------------------------------------------------------------------------------------------- closure
-KINDS = ['obs', 'cobs', 'int', 'float', 'complex', 'complex0']
+KINDS = ['obs', 'cobs', 'int', 'float', 'complex', 'complex0',
+         # numbers and arrays as numpy hands them out (elements of arrays, results of reductions)
+         'np_f32', 'np_i64', 'np_c64', 'np_c128', 'arr_f', 'arr_c', 'arr_c64']
+COMPLEX_KINDS = ('cobs', 'complex', 'complex0', 'np_c64', 'np_c128', 'arr_c', 'arr_c64')
+ARRAY_KINDS = ('arr_f', 'arr_c', 'arr_c64')
 
 
 @st.composite
@@ -399,6 +403,8 @@ def closure_case(draw, tier):
     if left not in ('obs', 'cobs') and right not in ('obs', 'cobs'):
         left = draw(st.sampled_from(['obs', 'cobs']))
     op = draw(st.sampled_from(['+', '-', '*', '/', '**']))
+    if op == '**' and (left in ARRAY_KINDS or right in ARRAY_KINDS):
+        op = draw(st.sampled_from(['+', '-', '*', '/']))
     nz = st.one_of(gen.fl(0.2, 3), gen.fl(-3, -0.2))
     return {'ops': ops, 'left': left, 'right': right, 'op': op, 'lnum': [draw(nz), draw(nz)], 'rnum': [draw(nz), draw(nz)]}
 
@@ -414,6 +420,20 @@ def _operand(pe, kind, o1, o2, num):
         return float(num[0])
     if kind == 'complex0':
         return complex(num[0], 0.0)
+    if kind == 'np_f32':
+        return np.float32(num[0])
+    if kind == 'np_i64':
+        return np.int64(int(round(num[0])) or 2)
+    if kind == 'np_c64':
+        return np.complex64(complex(num[0], num[1]))
+    if kind == 'np_c128':
+        return np.complex128(complex(num[0], num[1]))
+    if kind == 'arr_f':
+        return np.array([num[0], num[1]])
+    if kind == 'arr_c':
+        return np.array([complex(num[0], num[1]), complex(num[1], -num[0])])
+    if kind == 'arr_c64':
+        return np.array([complex(num[0], num[1]), complex(num[1], -num[0])], dtype=np.complex64)
     return complex(num[0], num[1])
 
 
@@ -424,14 +444,15 @@ def closure_oracle(spec):
     R = _operand(pe, spec['right'], obs[2], obs[3], spec['rnum'])
     op = spec['op']
     what = '%s %s %s' % (spec['left'], op, spec['right'])
-    cplx = 'complex' in spec['left'] or 'complex' in spec['right'] or 'cobs' in (spec['left'], spec['right'])
+    cplx = spec['left'] in COMPLEX_KINDS or spec['right'] in COMPLEX_KINDS
+    arr = spec['left'] in ARRAY_KINDS or spec['right'] in ARRAY_KINDS
     if op == '**':
         # powers involving complex quantities are not part of the closed arithmetic (CObs has no power); the
         # statement still forbids a complex-valued Obs or a bare number as the outcome of what does return
         if not cplx:
             if spec['right'] == 'float' and spec['left'] == 'obs':
                 pass
-            if spec['left'] in ('int', 'float') and L < 0:
+            if spec['left'] in ('int', 'float', 'np_f32', 'np_i64') and L < 0:
                 L = -L
         try:
             res = L ** R
@@ -446,10 +467,18 @@ def closure_oracle(spec):
     except Exception as e:
         raise Violation('%s raised %s: %s (arithmetic between observables and numbers must be closed)' % (what, type(e).__name__, e))
     wellformed_any(res, what)
-    if cplx:
-        require(isinstance(res, pe.CObs), what + ' must be a complex observable', type(res).__name__)
+    if arr:
+        # element-wise: an array of the same length whose entries are observables of the closed arithmetic
+        require(isinstance(res, np.ndarray) and res.shape == (2,), what + ' must be an array with one entry per entry of the operand',
+                type(res).__name__, getattr(res, 'shape', None))
+        members = list(res)
     else:
-        require(isinstance(res, pe.Obs), what + ' must be a real observable', type(res).__name__)
+        members = [res]
+    for r in members:
+        if cplx:
+            require(isinstance(r, pe.CObs), what + ' must be a complex observable', type(r).__name__)
+        else:
+            require(isinstance(r, pe.Obs), what + ' must be a real observable', type(r).__name__)
     return {'nt': cplx or spec['left'] != 'obs', 'cls': ['pair:' + what]}
 
 
@@ -457,7 +486,7 @@ def closure_oracle(spec):
 MAL = ['dup_names', 'nonstring_name', 'nonstring_single', 'unsorted_idl', 'duplicate_idl', 'descending_range', 'len_mismatch_idl',
        'len_mismatch_names', 'len_mismatch_idl_count', 'few_samples', 'multi_ensemble', 'cov_name_sep', 'cov_asym', 'cov_indef',
        'cov_nonsquare', 'merge_duplicate', 'cov_means_count', 'cov_asym_grad', 'cov_indef_grad', 'covobs_asym_grad', 'covobs_indef', 'cov_asym_tiny', 'multi_ensemble_prefix', 'merge_multi_ensemble',
-       'reversed_idl', 'descending_list', 'cov_negative_variance']
+       'reversed_idl', 'descending_list', 'cov_negative_variance', 'cov_indef_mild']
 
 
 @st.composite
@@ -550,6 +579,14 @@ def malformed_oracle(spec):
             return pe.cov_Obs([1.0, 2.0], [[1.0, 0.2 + spec['x'] * 0.01], [0.2, 1.0]], 'sys')
         if kind == 'cov_indef':
             return pe.cov_Obs([1.0, 2.0], [[1.0, 1.0 + spec['x']], [1.0 + spec['x'], 1.0]], 'sys')
+        if kind == 'cov_indef_mild':
+            # indefinite by far more than rounding (relative size 1e-3 .. 1e-10 of the largest eigenvalue, eps is 1e-16), but mildly:
+            # a negative variance on the diagonal, or a correlation slightly above one (C04-m21: relative tolerance sqrt(eps))
+            d = 10.0 ** (-3 - (k % 8))
+            a = spec['x'] * 10.0 ** ((k // 8) % 5 - 2)
+            if (k // 3) % 2 == 0:
+                return pe.cov_Obs([1.0, 2.0], [[a, 0.0], [0.0, -a * d]], 'sys')
+            return pe.cov_Obs([1.0, 2.0], [[a, a * (1.0 + d)], [a * (1.0 + d), a]], 'sys')
         if kind == 'cov_asym_grad':
             return pe.cov_Obs([1.0, 2.0], [[1.0, 0.2 + spec['x'] * 0.01], [0.2, 1.0]], 'sys', grad=[1.0, 0.5])
         if kind == 'cov_indef_grad':
